@@ -1,0 +1,92 @@
+//go:build verif
+
+// Contracts for the gowp verifier (/verif). Comment-only file: compiled only with -tags verif and
+// contributes no code either way.
+
+package contractcourt
+
+//@ func (c *ChannelArbitrator) shouldGoOnChain
+//@   props C12
+//@   let nw = htlc.RefundTimeout >= broadcastDelta
+//@   ensures  nw && result ==> currentHeight >= htlc.RefundTimeout - broadcastDelta
+//@   ensures  nw && htlc.Incoming ==> (result <==> currentHeight >= htlc.RefundTimeout - broadcastDelta)
+//@   ensures  nw && !htlc.Incoming && ret(IsForwardedHTLC) ==> (result <==> currentHeight >= htlc.RefundTimeout - broadcastDelta)
+//@   ensures  nw && !htlc.Incoming && ret(Sub) > c.cfg.PaymentsExpirationGracePeriod ==> (result <==> currentHeight >= htlc.RefundTimeout - broadcastDelta)
+//@   ensures  nw && currentHeight < htlc.RefundTimeout - broadcastDelta ==> !result
+//@   ensures  nw && !htlc.Incoming && !ret(IsForwardedHTLC) && ret(Sub) <= c.cfg.PaymentsExpirationGracePeriod ==> !result
+//@   site call IsForwardedHTLC: assert arg(1) == htlc.HtlcIndex && arg(0) == c.cfg.ShortChanID
+//@
+//@ func (c *ChannelArbitrator) checkCommitChainActions
+//@   props C12
+//@   loop * havoc
+//@   site call shouldGoOnChain nth 0: assert arg(broadcastDelta) == c.cfg.OutgoingBroadcastDelta && arg(currentHeight) == height && arg(htlc) == htlc
+//@   site call shouldGoOnChain nth 1: assert arg(broadcastDelta) == c.cfg.IncomingBroadcastDelta && arg(currentHeight) == height && arg(htlc) == htlc &&
+//@        retn(isPreimageAvailable, 0) && retn(isPreimageAvailable, 1) == nil
+//@   site call shouldGoOnChain nth 2: assert arg(broadcastDelta) == c.cfg.OutgoingBroadcastDelta && arg(currentHeight) == height && arg(htlc) == htlc
+//@   site call isPreimageAvailable: assert arg(hash) == htlc.RHash
+//@   site mapupdate actionMap: assert
+//@        (arg(key) == HtlcFailDustAction          ==> htlc.OutputIndex < 0) &&
+//@        (arg(key) == HtlcOutgoingWatchAction     ==> htlc.OutputIndex >= 0 && !ret(shouldGoOnChain, 2)) &&
+//@        (arg(key) == HtlcTimeoutAction           ==> htlc.OutputIndex >= 0 && ret(shouldGoOnChain, 2)) &&
+//@        (arg(key) == HtlcIncomingDustFinalAction ==> htlc.OutputIndex < 0) &&
+//@        (arg(key) == HtlcIncomingWatchAction     ==> htlc.OutputIndex >= 0) &&
+//@        (arg(key) == HtlcFailDustAction || arg(key) == HtlcOutgoingWatchAction || arg(key) == HtlcTimeoutAction ||
+//@         arg(key) == HtlcIncomingDustFinalAction || arg(key) == HtlcIncomingWatchAction)
+//@
+//@ func (c *ChannelArbitrator) checkRemoteDanglingActions
+//@   props C12
+//@   loop * havoc
+//@   site mapupdate remoteHTLCs: assert htlcSetKey.IsRemote && arg(key) == htlc.HtlcIndex
+//@   site mapupdate localHTLCs:  assert !htlcSetKey.IsRemote && arg(key) == htlc.HtlcIndex
+//@   site call append nth 0: assert !ok
+//@   site call shouldGoOnChain: assert arg(broadcastDelta) == c.cfg.OutgoingBroadcastDelta && arg(currentHeight) == height
+//@   site mapupdate actionMap: assert (ret(shouldGoOnChain) || commitsConfirmed) &&
+//@        retn(isPreimageAvailable, 1) == nil && !retn(isPreimageAvailable, 0) &&
+//@        (arg(key) == HtlcFailDustAction     ==> htlc.OutputIndex < 0) &&
+//@        (arg(key) == HtlcFailDanglingAction ==> htlc.OutputIndex >= 0) &&
+//@        (arg(key) == HtlcFailDustAction || arg(key) == HtlcFailDanglingAction)
+//@
+//@ func (c *ChannelArbitrator) checkRemoteDiffActions
+//@   props C12
+//@   loop * havoc
+//@   site mapupdate remoteHtlcs: assert arg(key) == htlc.HtlcIndex
+//@   site mapupdate actionMap: assert !ok &&
+//@        retn(isPreimageAvailable, 1) == nil && !retn(isPreimageAvailable, 0) &&
+//@        (arg(key) == HtlcFailDustAction     ==> htlc.OutputIndex < 0) &&
+//@        (arg(key) == HtlcFailDanglingAction ==> htlc.OutputIndex >= 0) &&
+//@        (arg(key) == HtlcFailDustAction || arg(key) == HtlcFailDanglingAction)
+//@
+//@ func (c *ChannelArbitrator) checkLocalChainActions
+//@   props C12
+//@   site call checkCommitChainActions: assert arg(height) == height && arg(trigger) == trigger
+//@   site call checkRemoteDanglingActions: assert arg(height) == height && arg(commitsConfirmed) == commitsConfirmed &&
+//@        arg(activeHTLCs) == activeHTLCs && retn(checkCommitChainActions, 1) == nil
+//@   site call Merge: assert arg(0) == retn(checkCommitChainActions, 0) && arg(1) == ret(checkRemoteDanglingActions)
+//@
+//@ func (c *ChannelArbitrator) checkRemoteChainActions
+//@   props C12
+//@   site call checkCommitChainActions: assert arg(height) == height && arg(trigger) == trigger
+//@   site call checkRemoteDiffActions: assert arg(pendingConf) == pendingConf && arg(activeHTLCs) == activeHTLCs &&
+//@        retn(checkCommitChainActions, 1) == nil
+//@   site call Merge: assert arg(0) == retn(checkCommitChainActions, 0) && arg(1) == ret(checkRemoteDiffActions)
+//@
+//@ func (c *ChannelArbitrator) constructChainActions
+//@   props C12
+//@   site call checkLocalChainActions: assert confCommitKey == LocalHtlcSet && arg(commitsConfirmed) &&
+//@        arg(height) == height && arg(trigger) == trigger && arg(activeHTLCs) == ret(toActiveHTLCSets)
+//@   site call checkRemoteChainActions nth 0: assert confCommitKey == RemoteHtlcSet && !arg(pendingConf) &&
+//@        arg(height) == height && arg(trigger) == trigger && arg(activeHTLCs) == ret(toActiveHTLCSets)
+//@   site call checkRemoteChainActions nth 1: assert confCommitKey == RemotePendingHtlcSet && arg(pendingConf) &&
+//@        arg(height) == height && arg(trigger) == trigger && arg(activeHTLCs) == ret(toActiveHTLCSets)
+//@
+//@ func (c *ChannelArbitrator) prepContractResolutions
+//@   props C12
+//@   loop * havoc
+//@   site call newSuccessResolver:         assert htlcAction == HtlcClaimAction && ok && arg(htlc) == htlc && arg(res) == resolution &&
+//@        arg(broadcastHeight) == height && (htlc.OutputIndex >= 0 ==> htlcOp.Index == htlc.OutputIndex) && htlcOp.Hash == commitHash
+//@   site call newTimeoutResolver:         assert htlcAction == HtlcTimeoutAction && ok && arg(htlc) == htlc && arg(res) == resolution &&
+//@        arg(broadcastHeight) == height && (htlc.OutputIndex >= 0 ==> htlcOp.Index == htlc.OutputIndex) && htlcOp.Hash == commitHash
+//@   site call newIncomingContestResolver: assert htlcAction == HtlcIncomingWatchAction && ok && arg(htlc) == htlc && arg(res) == resolution &&
+//@        arg(broadcastHeight) == height && (htlc.OutputIndex >= 0 ==> htlcOp.Index == htlc.OutputIndex) && htlcOp.Hash == commitHash
+//@   site call newOutgoingContestResolver: assert htlcAction == HtlcOutgoingWatchAction && ok && arg(htlc) == htlc && arg(res) == resolution &&
+//@        arg(broadcastHeight) == height && (htlc.OutputIndex >= 0 ==> htlcOp.Index == htlc.OutputIndex) && htlcOp.Hash == commitHash
